@@ -136,9 +136,9 @@ fn cmp_records(section: &str, a: &[Record], b: &[Record]) -> Option<Diff> {
         let (mut dx, mut dy) = (format!("{:?}", x.data), format!("{:?}", y.data));
         if matches!(x.record_type(), RecordType::NSEC | RecordType::NSEC3 | RecordType::CSYNC) {
             // `RecordTypeSet` caches the octets it was decoded from (`original_encoding`, private,
-            // ignored by its `PartialEq`, rendered as `Some(...)` / `None`): not part of the value
-            dx = dx.replace("original_encoding: Some(...)", "original_encoding: None");
-            dy = dy.replace("original_encoding: Some(...)", "original_encoding: None");
+            // ignored by its `PartialEq`, rendered as "Some(...)" / "None"): not part of the value
+            dx = dx.replace("original_encoding: \"Some(...)\"", "original_encoding: \"None\"");
+            dy = dy.replace("original_encoding: \"Some(...)\"", "original_encoding: \"None\"");
         }
         if x.data != y.data || dx != dy {
             return f(&format!("rdata.{}", variant_name(x)), dx, dy);
@@ -290,8 +290,11 @@ fn cause_class(m: &Message) -> &'static str {
     let mut longest = 0usize;
     let mut label = 0usize;
     let mut names: Vec<&Name> = hk::message_names(m);
+    let alg_name;
     if let Some(s) = m.signature() {
         names.push(&s.name);
+        alg_name = s.data.algorithm.to_name();
+        names.push(&alg_name);
     }
     for n in names {
         let (t, l) = hk::measure(n);
@@ -373,7 +376,14 @@ fn check_d(m: &Message, e: &[u8]) -> Result<(WMessage, wire::PointerReport, bool
 
 struct Oracle<'a> {
     rep: &'a mut Reporter,
+    /// reports per (rule, sig) in this shard
+    reported: std::collections::HashMap<String, u32>,
 }
+
+/// A defect in a central routine fails a large share of the cases; the reporter keeps at most
+/// 10 000 violation entries per shard, so after this many reports of one signature further
+/// occurrences are only counted (`violations_beyond_cap/<rule>`): later clauses keep their witnesses.
+const REPORTS_PER_SIG: u32 = 200;
 
 #[derive(Clone)]
 enum Case<'a> {
@@ -400,6 +410,12 @@ impl Case<'_> {
 
 impl Oracle<'_> {
     fn fail(&mut self, rule: &str, sig: &str, case: &Case, expected: Value, observed: Value) {
+        let n = self.reported.entry(format!("{rule}|{sig}")).or_insert(0);
+        *n += 1;
+        if *n > REPORTS_PER_SIG {
+            self.rep.count(&format!("violations_beyond_cap/{rule}"));
+            return;
+        }
         self.rep.violation(rule, sig, case.json(), expected, observed);
     }
 
@@ -628,6 +644,7 @@ impl Oracle<'_> {
         };
         self.rep.eval();
         self.rep.count("s/messages");
+        self.count_assembled(&b);
         match sjudge::judge(&b) {
             Ok(None) => self.rep.count("s/oversize_not_judged"),
             Ok(Some(obs)) => self.observe_s(&b, &obs),
@@ -651,19 +668,8 @@ impl Oracle<'_> {
         }
     }
 
-    fn observe_s(&mut self, b: &sbuild::Built, obs: &sjudge::SObs) {
-        self.rep.count("s/held");
-        if obs.schema_mismatch {
-            self.rep.count("d_rdata_schema_mismatch");
-        }
-        if obs.records >= 1 && obs.pointers >= 1 {
-            self.rep.nontrivial(fnv64(&obs.encoding));
-            self.rep.count("nontrivial_cases");
-            self.rep.count("s/nontrivial");
-        }
-        self.rep.add("s/rdata_bytes_compared", obs.rdata_compared as u64);
-        self.rep.count("s/harness_wire_decoded");
-        self.rep.max("s/max_encoded_len", obs.encoding.len() as f64);
+    /// What was assembled (counted whether or not the clauses hold afterwards).
+    fn count_assembled(&mut self, b: &sbuild::Built) {
         for r in b.sections.iter().flatten() {
             self.rep.count(&format!("s/type/{}", r.tname));
         }
@@ -694,6 +700,15 @@ impl Oracle<'_> {
             self.rep.count(&format!("s/boundary/{t}"));
         }
         self.rep.count(&format!("s/opcode/{}", u8::from(b.msg.metadata.op_code)));
+        let md = &b.msg.metadata;
+        let fbits = (md.message_type == MessageType::Response) as usize
+            | (md.authoritative as usize) << 1
+            | (md.truncation as usize) << 2
+            | (md.recursion_desired as usize) << 3
+            | (md.recursion_available as usize) << 4
+            | (md.authentic_data as usize) << 5
+            | (md.checking_disabled as usize) << 6;
+        self.rep.count(&format!("s/flags/{fbits:03}"));
         if let Some(s) = b.msg.signature() {
             let alg = match &s.data.algorithm {
                 hickory_proto::rr::rdata::tsig::TsigAlgorithm::Unknown(_) => "unknown".to_string(),
@@ -701,6 +716,21 @@ impl Oracle<'_> {
             };
             self.rep.count(&format!("s/tsig_alg/{alg}"));
         }
+    }
+
+    fn observe_s(&mut self, _b: &sbuild::Built, obs: &sjudge::SObs) {
+        self.rep.count("s/held");
+        if obs.schema_mismatch {
+            self.rep.count("d_rdata_schema_mismatch");
+        }
+        if obs.records >= 1 && obs.pointers >= 1 {
+            self.rep.nontrivial(fnv64(&obs.encoding));
+            self.rep.count("nontrivial_cases");
+            self.rep.count("s/nontrivial");
+        }
+        self.rep.add("s/rdata_bytes_compared", obs.rdata_compared as u64);
+        self.rep.count("s/harness_wire_decoded");
+        self.rep.max("s/max_encoded_len", obs.encoding.len() as f64);
     }
 
     fn clause_c(&mut self, case: &Case, b: &[u8], w0: &WMessage, e: &[u8], w1: &WMessage) -> bool {
@@ -1113,6 +1143,21 @@ fn edit_message(rng: &mut Rng, base: &Message, pool: &Pool) -> Message {
             q.name = fam.pick(rng);
         }
     }
+    // inside UPDATE, RDLENGTH 0 is RFC 2136's own wire form ("delete RRset" / "name in use"): a
+    // NULL / unknown-type record whose RDATA is empty is not distinguishable from it there, so such
+    // values are kept out of UPDATE messages (they only exist once hickory decodes empty RDATA of
+    // those types at all, cf. finding C02-F2)
+    let empty = |r: &Record| !r.data.is_update() && size::rdata_len(&r.data) == 0;
+    if m.metadata.op_code == OpCode::Update && m.all_sections().any(empty) {
+        if m.all_sections().any(|r| r.data.is_update()) {
+            // Update0 records need the UPDATE opcode: drop the empty-RDATA values instead
+            for sec in [&mut m.answers, &mut m.authorities, &mut m.additionals] {
+                sec.retain(|r| !empty(r));
+            }
+        } else {
+            m.metadata.op_code = OpCode::Query;
+        }
+    }
     m
 }
 
@@ -1228,8 +1273,8 @@ fn tame_picky(mut b: Vec<u8>) -> Vec<u8> {
 const S_QUICK: u64 = 100_000;
 const S_THOROUGH: u64 = 6_000_000;
 const S_MUST_MESSAGES: u64 = 60_000;
-const S_MUST_PER_KIND: u64 = 300;
-const S_MUST_PER_TAG: u64 = 100;
+const S_MUST_PER_KIND: u64 = 5_000;
+const S_MUST_PER_TAG: u64 = 150;
 
 fn main() {
     let ctx = Ctx::from_args("C02");
@@ -1238,7 +1283,7 @@ fn main() {
 
     if let Some(w) = ctx.replay_case() {
         let c = &w["case"];
-        let mut o = Oracle { rep: &mut rep };
+        let mut o = Oracle { rep: &mut rep, reported: Default::default() };
         match c["kind"].as_str() {
             Some("bytes") => {
                 let b = unhex(c["hex"].as_str().unwrap_or(""));
@@ -1284,7 +1329,7 @@ fn main() {
     // struct-level part (quick observes ≥ 3x these at seeds 1..5)
     rep.must("s/messages", if thorough { 500_000 } else { S_MUST_MESSAGES });
     rep.must("s/held", if thorough { 400_000 } else { S_MUST_MESSAGES * 3 / 4 });
-    rep.must("s/rdata_bytes_compared", S_MUST_MESSAGES);
+    rep.must("s/rdata_bytes_compared", S_MUST_MESSAGES * 5);
     rep.must("s/harness_wire_decoded", S_MUST_MESSAGES * 3 / 4);
     rep.must("s/nontrivial", S_MUST_MESSAGES / 4);
     for k in sgen::KINDS {
@@ -1297,10 +1342,14 @@ fn main() {
         rep.must(&format!("s/opt/{k}"), S_MUST_PER_KIND / 2);
     }
     for t in sbuild::TAG_PRIORITY {
-        rep.must(&format!("s/boundary/{t}"), if *t == "msg-65535" { 3 } else { S_MUST_PER_TAG });
+        rep.must(&format!("s/boundary/{t}"), if *t == "msg-65535" { 40 } else { S_MUST_PER_TAG });
     }
     for op in 0..16 {
-        rep.must(&format!("s/opcode/{op}"), S_MUST_PER_KIND);
+        rep.must(&format!("s/opcode/{op}"), 3_000);
+    }
+    for fbits in 0..128 {
+        // every combination of QR AA TC RD RA AD CD
+        rep.must(&format!("s/flags/{fbits:03}"), 400);
     }
     // every RData variant has a public way to a value; what the struct-level part deliberately does
     // not generate (see props assumptions)
@@ -1316,7 +1365,7 @@ fn main() {
 
     let mut rng = ctx.rng("main");
     let mut pool = Pool { records: Vec::new(), sigs: Vec::new(), queries: Vec::new() };
-    let mut o = Oracle { rep: &mut rep };
+    let mut o = Oracle { rep: &mut rep, reported: Default::default() };
 
     // W1: generated wire messages (all types, OPT / TSIG options) -> (B)(C)(D); W2: mutants that
     // still decode -> (B)(C)(D); W3: struct-level edits of the decoded values -> (A)(D)
@@ -1378,6 +1427,7 @@ fn main() {
     // algorithm are functions of it, so the enumerated parts are covered at every seed.
     let n_s = ctx.budget(S_QUICK, S_THOROUGH);
     let mut srng = ctx.rng("struct-level");
+    let t_s = std::time::Instant::now(); // reported only (evidence note), decides nothing
     for i in 0..n_s {
         let index = i * ctx.nshards + ctx.shard;
         let spec = {
@@ -1389,6 +1439,7 @@ fn main() {
         }
         o.clause_s(&spec);
     }
+    rep.max("s/wall_s_per_shard", t_s.elapsed().as_secs_f64());
 
     std::process::exit(rep.finish().min(0));
 }
